@@ -438,8 +438,8 @@ def check_messages(ctx, pa):
                             # preceding string by `+`
                             if before == '':
                                 ok = _start_ok(node)
-                            key = (f'{fi.qual}:'
-                                   f'{unparse(part.value)[:40]}@'
+                            key = (f'{fi.qual}:#'
+                                   f'{node.values.index(part)}@'
                                    f'{_ctx_text(node)}')
                             ctx.touch(fi)
                             ctx.ob(rule, key, fi.loc(node), ok,
@@ -507,8 +507,11 @@ def _start_ok(joined):
 
 
 def _ctx_text(node):
-    t = unparse(node)
-    return t[:30]
+    """the literal pieces of the f-string (no variable names: instance
+    keys must survive the renaming of a local)"""
+    t = ''.join(str(p.value) if isinstance(p, ast.Constant) else '{}'
+                for p in node.values)
+    return ' '.join(t.split())[:40]
 
 
 def _path_roots(pa, fi):
